@@ -281,6 +281,39 @@ def _has_marker(src):
     return False
 
 
+def _probe_b2(doc, res, sb):
+    """base2: its two operations have NO path parameters; the path key (whatever text it holds) is where the request goes, character for
+    character, and the declared response media types are what the function decodes."""
+    import urllib.parse
+
+    import httpx
+    out = []
+    by_method = {m.upper(): pk for pk, item in doc["paths"].items() for m in item if m in ("get", "put", "post", "delete", "patch")}
+    for ep in res.endpoints:
+        pk = by_method.get(ep["method"].upper())
+        if pk is None or "#" in pk or "?" in pk:
+            continue
+        try:
+            mod = wire.endpoint_module(sb, ep)
+        except Exception as exc:  # noqa: BLE001
+            out.append(("probe-import", "api", f"{type(exc).__name__}: {exc}"))
+            continue
+        import inspect
+        sig = inspect.signature(mod.sync_detailed)
+        if any(n not in ("client", "body") and prm.default is inspect.Parameter.empty for n, prm in sig.parameters.items()):
+            continue
+        kwargs = {}
+        if "body" in sig.parameters and sig.parameters["body"].default is inspect.Parameter.empty:
+            continue            # base2's bodies are exercised by C03; the parameterless GET /raw is the probe here
+        cap = wire.Capture(lambda request: httpx.Response(418))
+        r = wire.call(mod, "sync_detailed", lambda: wire.make_client(sb, cap), cap, kwargs)
+        if not r["ok"]:
+            out.append(("wire-call", "api", f"{ep['method']} {pk!r}: call raised {type(r['exc']).__name__}: {r['exc']}"))
+        elif r["requests"] and urllib.parse.unquote(r["requests"][0]["path"]) != pk:
+            out.append(("wire-path", "path", f"request path {urllib.parse.unquote(r['requests'][0]['path'])!r} != path key {pk!r}"))
+    return out
+
+
 def _probe_b1(doc, res, sb):
     """Executed character-for-character recovery for base1 (run on the hostile document's own generated code)."""
     out = []
@@ -548,6 +581,14 @@ def run_case(p):
                 for oracle, site, detail in _probe_b1(p["hostile"], H, sb):
                     viol.append({"oracle": oracle, "site": site, "key": key, "detail": detail})
                 steps += 6
+            except ImportError as exc:
+                viol.append({"oracle": "probe-import", "site": "-", "key": key, "detail": str(exc)})
+    if parsed_ok and p["base"] == "b2" and not any(v["oracle"] == "code-injected" for v in viol):
+        with Sandbox(H.pkg_tree()) as sb:
+            try:
+                for oracle, site, detail in _probe_b2(p["hostile"], H, sb):
+                    viol.append({"oracle": oracle, "site": site, "key": key, "detail": detail})
+                steps += 2
             except ImportError as exc:
                 viol.append({"oracle": "probe-import", "site": "-", "key": key, "detail": str(exc)})
     if p.get("raw_slots") and viol:
